@@ -43,17 +43,26 @@ func processReadBuf(rb []byte, searchDepth int) []byte {
 
 func (c *Channel) read() {
 	defer func() {
+		util.Yield("chan.read.exit")
+
 		c.readLoopExited = true
 	}()
 
 	for {
+		util.Yield("chan.read.top")
+
 		select {
 		case <-c.done:
 			return
 		default:
 		}
 
+		util.Yield("chan.read.pre")
+
 		b, err := c.t.Read()
+
+		util.Yield("chan.read.post")
+
 		if err != nil {
 			select {
 			case <-c.done:
@@ -76,6 +85,8 @@ func (c *Channel) read() {
 			c.l.Criticalf(
 				"encountered error reading from transport during channel read loop. error: %s", err,
 			)
+
+			util.Yield("chan.read.send")
 
 			c.Errs <- err
 
@@ -116,15 +127,21 @@ func (c *Channel) read() {
 // errors on the Errs channel (these would come from the underlying transport), the error is
 // returned with nil for the byte slice.
 func (c *Channel) Read() ([]byte, error) {
+	util.Yield("chan.Read.errs")
+
 	select {
 	case err := <-c.Errs:
 		return nil, err
 	default:
 	}
 
+	util.Yield("chan.Read.flag")
+
 	if c.readLoopExited {
 		return nil, util.ErrConnectionError
 	}
+
+	util.Yield("chan.Read.deq")
 
 	b := c.Q.Dequeue()
 
